@@ -38,6 +38,7 @@ Accepts(d) ==
 
 (* include() directive classes *)
 IncludeCls == {"ok", "okprojectrelative", "wrongext", "missing", "outside", "outsideviasymlink", "definestask", "includes",
+               "definestask_exp", "definestask_group", "definestask_combine", "definestask_macro",
                "raises", "syntaxerror"}
 IncludeAccepts(c) == c \in {"ok", "okprojectrelative"}
 
